@@ -17,7 +17,7 @@ VA, KW, FOREIGN = "va", "kw", "zz"
 ALL = P_NAMES + Q_NAMES + K_NAMES + [VA, KW, FOREIGN, "self", "cls"]
 ID = {n: i for i, n in enumerate(ALL)}
 NAME = {i: n for n, i in ID.items()}
-VARIANTS = ["func", "lambda", "method", "classmethod", "staticmethod", "init"]
+VARIANTS = ["func", "lambda", "method", "classmethod", "staticmethod", "init"]   # + CTOR_VARIANTS below
 FIRST = {"method": "self", "init": "self", "classmethod": "cls"}
 MAXPOS = 8          # classes P0..P8 exist in every generated module
 
@@ -43,9 +43,45 @@ def enum_sigs(maxn):
   return out
 
 
-def effective(sig, variant):
-  """The signature the mapper really sees: bound variants get self/cls as first positional parameter."""
-  first = FIRST.get(variant)
+# Constructor layouts: "ctor:n<d>i<d><mode>".  n<d> / i<d>: a user-defined __new__ / __init__ on the class that is
+# d levels above the instantiated class C (0 = C itself, 1 = its base, 2 = the base's base); absent = not defined
+# anywhere in the user hierarchy.  When both are defined, mode says how their signatures relate:
+#   s same signature          g __init__ is generic (self, *va, **kw)     G __new__ is generic (cls, *va, **kw)
+#   d __init__ differs: the last positional parameter is dropped and **kwargs is toggled
+# "ctor:none": a plain class hierarchy without any constructor (object's __new__/__init__).
+# CPython's rule (typeobject.c object_new/object_init): C(...) passes the same arguments to __new__ and then, if
+# an instance of C came back, to __init__; object.__new__ / object.__init__ tolerate excess arguments exactly
+# when the other one is overridden somewhere on the MRO.  So the signatures bound are the user-defined ones.
+CTOR_VARIANTS = ["ctor:i1", "ctor:i2", "ctor:n0", "ctor:n1", "ctor:n2",
+                 "ctor:n0i0s", "ctor:n1i0s", "ctor:n0i1s", "ctor:n1i1s", "ctor:n2i1s",
+                 "ctor:n0i0g", "ctor:n1i0g", "ctor:n0i0G", "ctor:n0i1G",
+                 "ctor:n0i0d", "ctor:n1i0d", "ctor:n0i1d", "ctor:none"]
+_CTOR = re.compile(r"ctor:(?:n(\d))?(?:i(\d))?([sgGd])?$")
+GENERIC = Sig((), (), (), (), True, True)
+OBJECT_INIT = Sig(("self",), (), (), (), False, False)
+
+
+def ctor_layout(variant):
+  """(depth of __new__ or None, depth of __init__ or None, mode) for a ctor:... variant, else None."""
+  if not variant.startswith("ctor:") or variant == "ctor:none":
+    return None
+  m = _CTOR.match(variant)
+  dn, di, mode = m.groups()
+  return (None if dn is None else int(dn), None if di is None else int(di), mode or "s")
+
+
+def derived_sig(sig):
+  """The 'different' second signature: last positional parameter dropped, **kwargs toggled."""
+  if sig.Q:
+    gone, s2 = sig.Q[-1], sig._replace(Q=sig.Q[:-1])
+  elif sig.P:
+    gone, s2 = sig.P[-1], sig._replace(P=sig.P[:-1])
+  else:
+    gone, s2 = None, sig
+  return s2._replace(D=tuple(x for x in s2.D if x != gone), kw=not sig.kw)
+
+
+def with_first(sig, first):
   if not first:
     return sig
   if sig.P:
@@ -53,18 +89,66 @@ def effective(sig, variant):
   return sig._replace(Q=(first,) + sig.Q)
 
 
+def parts(sig, variant):
+  """The signatures CPython binds for this callee, in call order: [(effective signature, first parameter)]."""
+  if variant == "ctor:none":
+    return [(OBJECT_INIT, "self")]
+  lay = ctor_layout(variant)
+  if lay is None:
+    first = FIRST.get(variant)
+    return [(with_first(sig, first), first)]
+  dn, di, mode = lay
+  out = []
+  if dn is not None:
+    out.append((with_first(GENERIC if (mode == "G" and di is not None) else sig, "cls"), "cls"))
+  if di is not None:
+    if dn is None or mode in "sG":
+      isig = sig
+    elif mode == "g":
+      isig = GENERIC
+    else:
+      isig = derived_sig(sig)
+    out.append((with_first(isig, "self"), "self"))
+  return out
+
+
+def shift_of(variant):
+  return 1 if (variant in FIRST or variant.startswith("ctor:")) else 0
+
+
+def effective(sig, variant):
+  """The (first) signature the mapper really sees: bound variants get self/cls as first positional parameter."""
+  return parts(sig, variant)[0][0]
+
+
 def all_names(esig):
   return list(esig.P) + list(esig.Q) + list(esig.K) + ([VA] if esig.va else []) + ([KW] if esig.kw else [])
 
 
-def kw_universe(esig):
+def names_v(sig, variant):
+  """[(parameter name, first parameter of its signature)] over all signatures bound by the call, in order."""
+  if variant == "ctor:none":
+    return []
+  return [(n, first) for e, first in parts(sig, variant) for n in all_names(e)]
+
+
+def kw_universe(sig, variant):
   """Names a call may use as keywords: every parameter (incl. self/cls, *args and **kwargs names) + one foreign."""
-  return all_names(esig) + [FOREIGN]
+  seen = []
+  for e, _ in parts(sig, variant):
+    for n in all_names(e):
+      if n not in seen:
+        seen.append(n)
+  return seen + [FOREIGN]
+
+
+def posonly_names(sig, variant):
+  return [n for e, _ in parts(sig, variant) for n in e.P]
 
 
 def enum_shapes(sig, variant, maxpos, maxkw):
   """(user positional count, keyword tuple) for every call with <= maxpos positional and <= maxkw keywords."""
-  uni = kw_universe(effective(sig, variant))
+  uni = kw_universe(sig, variant)
   out = []
   for npos in range(maxpos + 1):
     for r in range(maxkw + 1):
@@ -73,12 +157,23 @@ def enum_shapes(sig, variant, maxpos, maxkw):
   return out
 
 
-def model_line(sig, variant, shape):
-  e = effective(sig, variant)
-  shift = 1 if variant in FIRST else 0
+def model_lines(sig, variant, shape):
+  """One input line of the extracted model per signature bound by the call."""
+  shift = shift_of(variant)
   f = lambda l: "%d %s" % (len(l), " ".join(str(ID[n]) for n in l))
-  return "%s %s %s %s %d %d %d %s" % (f(e.P), f(e.Q), f(e.K), f(e.D), ID[VA] if e.va else -1,
-                                      ID[KW] if e.kw else -1, shape[0] + shift, f(shape[1]))
+  return ["%s %s %s %s %d %d %d %s" % (f(e.P), f(e.Q), f(e.K), f(e.D), ID[VA] if e.va else -1,
+                                       ID[KW] if e.kw else -1, shape[0] + shift, f(shape[1]))
+          for e, _ in parts(sig, variant)]
+
+
+def combine(results, variant):
+  """Result of the whole call from the per-signature results: the first error, else all bindings."""
+  for r in results:
+    if not r.startswith("O:"):
+      return "E:any:" if variant == "ctor:none" and r.startswith("E:") else r
+  if variant == "ctor:none":
+    return "O:"
+  return "O:" + ",".join(r[2:] for r in results if r != "O:")
 
 
 # ------------------------------------------------------------------------------------------------
@@ -97,31 +192,61 @@ HEADER = header()
 HEADER_LINES = HEADER.count("\n")
 
 
-def params_text(sig, variant):
-  e = effective(sig, variant)
+def esig_text(e):
   d = lambda n: n + (f"=D_{n}()" if n in e.D else "")
-  parts = [d(n) for n in e.P]
+  ps = [d(n) for n in e.P]
   if e.P:
-    parts.append("/")
-  parts += [d(n) for n in e.Q]
+    ps.append("/")
+  ps += [d(n) for n in e.Q]
   if e.va:
-    parts.append("*" + VA)
+    ps.append("*" + VA)
   elif e.K:
-    parts.append("*")
-  parts += [d(n) for n in e.K]
+    ps.append("*")
+  ps += [d(n) for n in e.K]
   if e.kw:
-    parts.append("**" + KW)
-  return ", ".join(parts)
+    ps.append("**" + KW)
+  return ", ".join(ps)
 
 
-def ret_tuple(sig, variant):
-  names = all_names(effective(sig, variant))
-  return "(" + "".join(n + ", " for n in names) + ")"
+def params_text(sig, variant):
+  if variant == "ctor:none":
+    return "<no constructor>"
+  return " ; ".join(esig_text(e) for e, _ in parts(sig, variant))
+
+
+def _tuple_text(e):
+  return "(" + "".join(n + ", " for n in all_names(e)) + ")"
+
+
+def ctor_text(sig, variant, j):
+  """class C<j>B2 <- C<j>B1 <- C<j> with __new__ / __init__ at the depths the layout says."""
+  bodies = {0: [], 1: [], 2: []}
+  if variant != "ctor:none":
+    dn, di, _ = ctor_layout(variant)
+    ps = parts(sig, variant)
+    both = dn is not None and di is not None
+    if both:
+      bodies[2].append("  rn = ()\n")
+    if dn is not None:
+      e = ps[0][0]
+      bodies[dn].append(f"  def __new__({esig_text(e)}):\n    o = object.__new__(cls)\n"
+                        f"    o.{'rn' if both else 'r'} = {_tuple_text(e)}\n    return o\n")
+    if di is not None:
+      e = ps[-1][0]
+      bodies[di].append(f"  def __init__({esig_text(e)}):\n"
+                        f"    self.r = {'self.rn + ' if both else ''}{_tuple_text(e)}\n")
+  out = []
+  for depth, name, base in ((2, f"C{j}B2", ""), (1, f"C{j}B1", f"(C{j}B2)"), (0, f"C{j}", f"(C{j}B1)")):
+    out.append(f"class {name}{base}:\n" + ("".join(bodies[depth]) or "  pass\n"))
+  return "".join(out)
 
 
 def def_text(sig, variant, j):
-  """Definition of the j-th callee of a module; returns (text, callee expression prefix, suffix)."""
-  pt, rt = params_text(sig, variant), ret_tuple(sig, variant)
+  """Definition of the j-th callee of a module."""
+  if variant.startswith("ctor:"):
+    return ctor_text(sig, variant, j)
+  e = effective(sig, variant)
+  pt, rt = esig_text(e), _tuple_text(e)
   if variant == "func":
     return f"def f{j}({pt}):\n  return {rt}\n"
   if variant == "lambda":
@@ -138,7 +263,7 @@ def def_text(sig, variant, j):
 
 
 def call_text(sig, variant, j, shape):
-  shift = 1 if variant in FIRST else 0
+  shift = shift_of(variant)
   args = [f"p{i + shift}" for i in range(shape[0])] + [f"{k}=k_{k}" for k in shape[1]]
   a = ", ".join(args)
   if variant in ("func", "lambda"):
@@ -147,15 +272,17 @@ def call_text(sig, variant, j, shape):
     return f"c{j}.m({a})"
   if variant in ("classmethod", "staticmethod"):
     return f"C{j}.m({a})"
+  if variant == "ctor:none":
+    return f"C{j}({a})"
   return f"C{j}({a}).r"
 
 
 def module_text(group):
   """group: list of (sig, variant, [shapes]).  Returns (source, {line: (group index, shape index)})."""
-  parts = [HEADER]
+  chunks = [HEADER]
   for j, (sig, variant, _) in enumerate(group):
-    parts.append(def_text(sig, variant, j))
-  src = "".join(parts)
+    chunks.append(def_text(sig, variant, j))
+  src = "".join(chunks)
   line = src.count("\n")
   where = {}
   calls = []
@@ -249,6 +376,33 @@ def classify_typeerror(msg):
   return "E:?:" + msg
 
 
+def _mro_function(klass, name):
+  for k in klass.__mro__:
+    if name in k.__dict__ and k is not object:
+      f = k.__dict__[name]
+      return getattr(f, "__func__", f)
+  return None
+
+
+def _bind_one(fn, bargs, kwargs, ns, e, first):
+  """inspect.signature(fn).bind(...) as a canonical result over the parameters of e."""
+  try:
+    ba = inspect.signature(fn).bind(*bargs, **kwargs)
+  except TypeError as ex:
+    return "E:bind:" + str(ex)
+  vals = []
+  for n in all_names(e):
+    if n in ba.arguments:
+      vals.append(_decode_obj(ba.arguments[n], ns, first, n))
+    elif n == VA:
+      vals.append("V")
+    elif n == KW:
+      vals.append("W")
+    else:
+      vals.append("D")
+  return "O:" + ",".join(vals)
+
+
 def cpython_results(group):
   """For every (sig, variant, shapes) and every shape: (real call result, Signature.bind result)."""
   src, _, _ = module_text(group)
@@ -256,21 +410,25 @@ def cpython_results(group):
   exec(compile(src, "<c13>", "exec"), ns)     # our own generated text  # pylint: disable=exec-used
   out = []
   for j, (sig, variant, shapes) in enumerate(group):
-    e = effective(sig, variant)
-    names = all_names(e)
-    first = FIRST.get(variant)
-    shift = 1 if first else 0
+    ps = parts(sig, variant)
+    names = names_v(sig, variant)
+    shift = shift_of(variant)
+    is_ctor = variant.startswith("ctor:")
+    # the callee, and for Signature.bind the underlying function(s) with their explicit first argument
     if variant in ("func", "lambda"):
-      callee = fn = ns[f"f{j}"]; selfobj = None
+      callee = ns[f"f{j}"]; fns = [(callee, None)]
     elif variant == "method":
-      callee = ns[f"c{j}"].m; fn = ns[f"C{j}"].__dict__["m"]; selfobj = ns[f"c{j}"]
+      callee = ns[f"c{j}"].m; fns = [(ns[f"C{j}"].__dict__["m"], ns[f"c{j}"])]
     elif variant == "classmethod":
-      callee = ns[f"C{j}"].m; fn = ns[f"C{j}"].__dict__["m"].__func__; selfobj = ns[f"C{j}"]
+      callee = ns[f"C{j}"].m; fns = [(ns[f"C{j}"].__dict__["m"].__func__, ns[f"C{j}"])]
     elif variant == "staticmethod":
-      callee = ns[f"C{j}"].m; fn = ns[f"C{j}"].__dict__["m"].__func__; selfobj = None
+      callee = ns[f"C{j}"].m; fns = [(ns[f"C{j}"].__dict__["m"].__func__, None)]
+    elif variant == "ctor:none":
+      callee = ns[f"C{j}"]; fns = []
     else:
-      callee = ns[f"C{j}"]; fn = ns[f"C{j}"].__dict__["__init__"]; selfobj = None
-    sg = inspect.signature(fn)
+      callee = ns[f"C{j}"]
+      fns = [(_mro_function(callee, "__new__" if first == "cls" else "__init__"),
+              callee if first == "cls" else object.__new__(callee)) for _, first in ps]
     rows = []
     for (npos, ks) in shapes:
       args = [ns[f"p{i + shift}"] for i in range(npos)]
@@ -278,30 +436,21 @@ def cpython_results(group):
       # (1) the real call
       try:
         r = callee(*args, **kwargs)
-        if variant == "init":
-          r = r.r
-        real = "O:" + ",".join(_decode_obj(o, ns, first, n) for o, n in zip(r, names))
+        if variant == "ctor:none":
+          real = "O:" if type(r) is callee else "?" + type(r).__name__
+        else:
+          if variant == "init" or is_ctor:
+            r = r.r
+          real = "O:" + ",".join(_decode_obj(o, ns, first, n) for o, (n, first) in zip(r, names)) \
+              if len(r) == len(names) else "?len"
       except TypeError as ex:
-        real = classify_typeerror(str(ex))
-      # (2) inspect.Signature.bind on the underlying function (self/cls passed explicitly)
-      bargs = list(args)
-      if first:
-        bargs = [selfobj if selfobj is not None else object.__new__(ns[f"C{j}"])] + bargs
-      try:
-        ba = sg.bind(*bargs, **kwargs)
-        vals = []
-        for n in names:
-          if n in ba.arguments:
-            vals.append(_decode_obj(ba.arguments[n], ns, first, n))
-          elif n == VA:
-            vals.append("V")
-          elif n == KW:
-            vals.append("W")
-          else:
-            vals.append("D")
-        bound = "O:" + ",".join(vals)
-      except TypeError as ex:
-        bound = "E:bind:" + str(ex)
+        real = "E:any:" if variant == "ctor:none" else classify_typeerror(str(ex))
+      # (2) inspect.Signature.bind on the underlying function(s) (self/cls passed explicitly)
+      if variant == "ctor:none":
+        bound = real
+      else:
+        bound = combine([_bind_one(fn, ([a0] if first else []) + args, kwargs, ns, e, first)
+                         for (fn, a0), (e, first) in zip(fns, ps)], variant)
       rows.append((real, bound))
     out.append(rows)
   return out
@@ -413,20 +562,24 @@ def pytype_results(group):
   out = [[None] * len(shapes) for _, _, shapes in group]
   for line, (j, k) in where.items():
     sig, variant, _ = group[j]
-    names = all_names(effective(sig, variant))
-    first = FIRST.get(variant)
+    names = names_v(sig, variant)
+    is_ctor = variant.startswith("ctor:")
     if errs[line]:
       if len(errs[line]) > 1:
         r = "E:multiple:" + ";".join(n for n, _ in errs[line])
-      elif (variant == "init" and errs[line][0][0] == "attribute-error"
+      elif ((variant == "init" or is_ctor) and errs[line][0][0] == "attribute-error"
             and re.match(r"No attribute 'r' on C\d+", errs[line][0][1])):
         # __init__ ran with `self` bound to something other than the new instance, so `self.r = ...` landed
         # elsewhere: the call was accepted and the first parameter is not the instance
         r = "O:!self-rebound"
+      elif variant == "ctor:none" and errs[line][0][0] in _ERR_KIND:
+        r = "E:any:"
       else:
         r = _decode_error(*errs[line][0])
     elif line not in reveals:
       r = "?no-reveal"
+    elif variant == "ctor:none":
+      r = "O:" if re.fullmatch(r"C\d+", reveals[line]) else "?" + reveals[line]
     else:
       t = reveals[line]
       if t == "tuple[()]":
@@ -438,7 +591,7 @@ def pytype_results(group):
       if elems is None or len(elems) != len(names):
         r = "?" + t
       else:
-        r = "O:" + ",".join(_decode_type(x, first, n) for x, n in zip(elems, names))
+        r = "O:" + ",".join(_decode_type(x, first, n) for x, (n, first) in zip(elems, names))
     out[j][k] = r
   return out, stray
 
